@@ -17,6 +17,7 @@ import (
 	"context"
 	"io"
 	"net"
+	"time"
 
 	"github.com/honeytrap/honeytrap/director"
 	"github.com/honeytrap/honeytrap/event"
@@ -70,12 +71,12 @@ func (s *copyService) Handle(ctx context.Context, conn net.Conn) error {
 
 		defer conn2.Close()
 
-		go func() {
-			// when the client is gone, release the backend connection as well - and with it the
-			// copy below, which otherwise waits for the backend to close first, maybe forever
-			io.Copy(conn2, conn)
-			conn2.Close()
-		}()
+		go io.Copy(conn2, conn)
+
+		// a datagram has no end of stream to wait for: relay the backend's replies until
+		// none has come for a while
+		conn2.SetReadDeadline(time.Now().Add(30 * time.Second))
+
 		_, err = io.Copy(conn, conn2)
 
 		return err
